@@ -1794,10 +1794,19 @@ size_t rtosc_scan_arg_val(const char* src,
                 src+=rd;
                 float secfracsf;
 
-                rd = 0;
-                sscanf(src, " %2d:%2d%n", &m_tm.tm_hour, &m_tm.tm_min, &rd);
-                if(rd)
-                 src+=rd;
+                {
+                    // an incomplete match (e.g. a following integer) must not
+                    // touch the time
+                    int hour, min;
+                    rd = 0;
+                    sscanf(src, " %2d:%2d%n", &hour, &min, &rd);
+                    if(rd)
+                    {
+                        m_tm.tm_hour = hour;
+                        m_tm.tm_min = min;
+                        src+=rd;
+                    }
+                }
 
                 rd = 0;
                 sscanf(src, ":%2d%n", &m_tm.tm_sec, &rd);
@@ -1808,7 +1817,7 @@ size_t rtosc_scan_arg_val(const char* src,
 
                 // lossless format is appended in parentheses?
                 //  => take it directly from there
-                if(skip_fmt(&src, "%*f (%n"))
+                if(*src == '.' && skip_fmt(&src, "%*f (%n"))
                 {
                     rd = 0;
                     sscanf(src, " ... + 0x%8"PRIx64"p-32 s )%n",
